@@ -11,6 +11,10 @@ with their methods, plus the private helpers `_maxvol` and `_info_appr`.  Each p
   `np.asanyarray` hands the caller's buffer through and an in-place write would hit it,
 * a shape variant  'base' | 'rank1' (all TT-ranks 1) | 'mode1' (a mode of size 1) | 'd2' (two modes) | 'd4' (four
   modes, ranks 2-3-2: interior cores that touch neither boundary core),
+  and (gap closure, own case block) 'd1': ONE core 1 x 4 x 1 - the smallest TT-tensor: no sweep step, no bond, no interior
+  core, so a function that relies on "every step rebinds the cores it touches" hands the argument's array through.  Every
+  pattern that has a TT-tensor (or builds one from a shape list) gets it for every flag variant; calls that raise for every
+  one-core tensor on the clean tree are listed in D1_REJECTED (SKIP after the argument check).
 * a flag variant   (the argument combinations of the function: every flag / argument form that opens another code
   path - number vs list vs ndarray, 1-D vs 2-D, int seed vs Generator, log=True, stop criteria m / e / e_vld / cb /
   f returning None / conv, rank-adaptive als with weights / without regularisation / r_add, als allow_swap=True
@@ -26,6 +30,8 @@ Clauses (params fn, layout, sv, variant, seed so that a failure is attributable)
 * C09.no_alias: no array reachable from the result (lists, tuples, dicts; for the classes: everything the
   methods return) shares memory with any array reachable from an argument (`np.shares_memory`), and the result
   container is not an argument container.
+* C09.no_alias.one_core_full: the same for full / full_matrix of a one-core tensor, isolated (finding: `full([G])` is a
+  VIEW of G on the clean tree; reported).
 * C09.inplace.contract: orthogonalize_left/right(inplace=True) return the argument list itself, replace only
   cores i and i+-1, leave all other cores (identity and bytes) untouched.
 * C09.passthrough.contract: the small pass-through helpers return either their argument itself or a fresh
@@ -58,7 +64,8 @@ CASE_TIMEOUT = 60
 BOUNDS = ('every public function taking tensors / arrays / lists (PATTERNS: 97 of the 98 public names - all but getter - plus _maxvol, _info_appr; class methods of ANOVA / ANOVA_func via post-calls), '
           'about 370 flag / argument-form variants (ndarray arguments of the exact dtype, lists, Generators, every stop criterion, allow_swap, update_sol, log), '
           'layouts C / F / strided views / read-only, shape variants base (d=3, ranks 3,2), rank 1, '
-          'mode size 1, d = 2, d = 4; tensors with <= 256 entries, <= 60 samples')
+          'mode size 1, d = 2, d = 4, and d = 1 (one core 1 x 4 x 1; every flag variant, 2 layouts quick / 4 thorough); '
+          'tensors with <= 256 entries, <= 60 samples')
 
 LAYOUTS = ('C', 'F', 'V', 'R')       # 'R': C-contiguous and read-only (an attempted write raises)
 SHAPE_VARIANTS = ('base', 'rank1', 'mode1', 'd2', 'd4')
